@@ -21,7 +21,7 @@ ASSUMPTIONS = [
     "expected result and error name of all 1205 script_tests.json and all 200 tx_valid/tx_invalid vectors shipped in the repo "
     "(re-checked on every run by the 'calibration' sub-check); it is a model of Core, not Core",
     "executed CLTV/CSV with its flag off under DISCOURAGE_UPGRADABLE_NOPS is EITHER (Core-version dependent policy), never compared",
-    "a non-ScriptError exception from pycoin counts as 'did not succeed' and is tallied as unclean-fail",
+    "an exception other than ScriptError escaping from eval_script / check_solution / is_solution_ok is a violation (bucket crash:<Type>@<frame>): the observation points are 'returned stack or raised ScriptError' and 'raising ScriptError or returning'",
 ]
 UNEXPLORED = ["MINIMALIF / WITNESS_PUBKEYTYPE on a bare BitcoinVM with base sigversion (SolutionChecker strips them; only reachable through witness spends)"]
 
@@ -73,7 +73,21 @@ def o_eval(case):
         from oracles import refsighash
         return refsighash.legacy(tx0, n_in, A.render(A.strip_sigs(toks)), ht)
     script = A.render(prog_tokens, z_fn)
-    init = [bytes.fromhex(x) for x in case["stack"]]
+
+    def z_stack(ht, cs):
+        # items supplied on the initial stack sign the program as it is (nothing of theirs is inside it)
+        after = A.code_after_separators(prog_tokens, cs)
+        prefix = len(A.render(prog_tokens[:len(prog_tokens) - len(after)], z_fn))
+        from oracles import refsighash
+        if sv == V.WITNESS_V0:
+            return refsighash.bip143(tx0, n_in, script[prefix:], amount, ht)
+        return refsighash.legacy(tx0, n_in, script[prefix:], ht)
+    init = []
+    for x in case["stack"]:
+        if isinstance(x, str):
+            init.append(bytes.fromhex(x))
+        else:
+            init.extend(A.items([x[1]], z_stack))
     checker = V.TxChecker(tx0, n_in, amount)
     verdict, err, rstack, ctx = V.run_eval(script, flags, checker, init, sv)
 
@@ -90,12 +104,14 @@ def o_eval(case):
         pverdict = V.OK
     except ScriptError:
         pstack, pverdict = None, V.FAIL
-    except RecursionError:
-        raise
-    except Exception as ex:  # counted, see ASSUMPTIONS
-        pstack, pverdict, unclean = None, V.FAIL, type(ex).__name__
+    # any other exception escapes: eval_script is observed as "returned stack or raised ScriptError", so the runner
+    # reports it as crash:<Type>@<innermost pycoin frame>
 
     labels = ["ref=" + verdict, "sv=%d" % sv] + _labels_for_ops(ctx)
+    if any(ok for _ht, _z, ok in checker.sig_results):
+        labels.append("sig-verified")
+    elif checker.sig_results:
+        labels.append("sig-attempted")
     if unclean:
         labels.append("unclean-fail")
     if verdict == V.EITHER:
@@ -137,13 +153,14 @@ def o_spend(case):
         pverdict = V.OK
     except ScriptError:
         pverdict = V.FAIL
-    except RecursionError:
-        raise
-    except Exception as ex:
-        pverdict, unclean = V.FAIL, type(ex).__name__
+    # any other exception escapes (check_solution is observed as "raising ScriptError or returning")
     labels = ["ref=" + verdict, "shape=" + case["shape"]] + _labels_for_ops(ctx)
-    if checker.sighash_calls:
-        labels.append("sig-verified" if verdict == V.OK else "sig-attempted")
+    if any(ok for _ht, _z, ok in checker.sig_results):
+        labels.append("sig-verified")
+    elif checker.sig_results:
+        labels.append("sig-attempted")
+    if V.OP_CODESEPARATOR in ctx.executed:
+        labels.append("x:codesep")
     if unclean:
         labels.append("unclean-fail")
     if case.get("mut"):
@@ -192,7 +209,11 @@ def o_calibration(case):
             return ["either"]
         if (verdict == V.OK) != (v["expected"] == "OK"):
             raise HarnessError("refvm calibration failed on script vector %d: %s/%s, expected %s: %r" % (case["i"], verdict, err, v["expected"], v))
-        return ["script-" + ("ok" if verdict == V.OK else "fail")]
+        aliases = {("SCRIPTNUM_OVERFLOW", "UNKNOWN_ERROR"), ("SCRIPTNUM_NONMINIMAL", "UNKNOWN_ERROR"), ("EVAL_FALSE", "CLEANSTACK")}
+        if verdict != V.OK and err != v["expected"] and (err, v["expected"]) not in aliases:
+            # error names are not part of the property, but agreement on them shows the model fails for the right reason
+            raise HarnessError("refvm calibration: script vector %d fails with %s, Core's vector says %s: %r" % (case["i"], err, v["expected"], v))
+        return ["script-" + ("ok" if verdict == V.OK else "fail:" + ("named" if err == v["expected"] else "alias"))]
     ok, either = refvm_calibrate.run_tx_vector(v)
     if not either and ok != v["valid"]:
         raise HarnessError("refvm calibration failed on tx vector %d" % case["i"])
